@@ -36,6 +36,7 @@ EXPLANATION = (
     "of three- and four-point results on all signals.")
 EXPLANATION += (' R-C02-4: find_turns decides reversal and plateau only by exact sign tests of first differences (D*D < 0, D == 0): no tolerance, no rounding, no sign-dependent selection. R-C02-5: the three-point front indices are np.argmax / np.argmin (first occurrence) of the same carried residual and feed the matching guards.')
 EXPLANATION += (" R-C02-6: in the three- and four-point process() every path from _new_turns to a normal exit runs the counting kernel (CFG must-pass), so no chunk's turning points or trailing sample bypass the counting rule.")
+EXPLANATION += (" R-C02-7: the compiled kernels use no single-precision function or cast (fabsf, float32, ...) on ranges, and no attribute of the detector base class holds a view of the caller's chunk (effect analysis, shared with R-C01-7).")
 ASSUMPTIONS = [
     "the compiled rainflow_ext kernels are built from extension.pyx by setup.py",
     "fabs/np.abs are the real absolute value; C doubles compare like reals (no NaN after find_turns cleaned them)",
@@ -234,6 +235,53 @@ def run(ctx):
     ctx.attempt(_r4_turns)
     ctx.attempt(_r5_front)
     ctx.attempt(_r6_all_turns_counted)
+    ctx.attempt(_r7_precision_and_state)
+
+
+NARROWING = ("fabsf", "float32", "np.float32", "np.single", "np.half", "np.float16", "roundf", "floorf", "ceilf", "lroundf")
+
+
+def _r7_precision_and_state(ctx):
+    """(a) The counting kernels compare ranges in the precision of the signal (double): a single-precision function or cast
+    (fabsf, float32) in a kernel makes ranges that differ by less than ~6e-8 relative tie, which closes cycles the rule leaves
+    open.  (b) The turning points the kernels see are the detector's own: nothing carried between chunks is a view of the
+    caller's buffer (shared with R-C01-7)."""
+    prog = ctx.prog
+    ctx.rule("R-C02-7", floor=3, what="kernel comparisons in double precision; carried turning-point state owned by the detector")
+    for k in kernels(prog):
+        bad = []
+        for n in ast.walk(k.fi.node):
+            if isinstance(n, ast.Call) and (call_name(n) or "").split(".")[-1] in [x.split(".")[-1] for x in NARROWING]:
+                bad.append(n)
+            if isinstance(n, ast.Name) and n.id in ("float32",) and isinstance(n.ctx, ast.Load):
+                bad.append(n)
+        ct = {v for v in getattr(k.fi.module, "ctypes", {}).get(k.fi.name, {}).values()} if hasattr(k.fi.module, "ctypes") else set()
+        if bad:
+            st = bad[0]
+            while not isinstance(st, ast.stmt):
+                st = st._parent
+            ctx.violated(k.fi, st, "%s: %s narrows a range to single precision before it is compared: ranges that differ by less "
+                         "than about 6e-8 relative (e.g. integer loads in Pa around 3e8) tie, so cycles are closed that the "
+                         "counting rule leaves open" % (k.fi.name, norm_text(bad[0])), text="narrowing " + norm_text(bad[0]))
+        else:
+            ctx.holds(k.fi, k.fi.node, "%s: no single-precision function or cast" % k.fi.name)
+    from .c01 import _r7_state, detectors
+    _r7_state_quiet = _r7_state
+    dets = detectors(prog)
+    # provenance part only (the memo part belongs to C01)
+    from ..effects import Effects
+    eff = Effects(prog)
+    base = prog.cls("pylife.stress.rainflow.general:AbstractDetector")
+    prov = eff.attr_provenance(base)
+    bad = [(a, o, m) for a, srcs in prov.items() for o, m in srcs if o[0] in ("param", "elem") and o[1] in ("samples",)]
+    nt = prog.func("pylife.stress.rainflow.general:AbstractDetector._new_turns")
+    if bad:
+        a, o, m = bad[0]
+        ctx.violated(nt, nt.node, "AbstractDetector keeps a %s of the caller's chunk in self.%s: when the caller refills its buffer, "
+                     "turning points at the chunk border are lost or invented" % (m, a), text="state aliases chunk " + a)
+    else:
+        ctx.holds(nt, nt.node, "no attribute of the detector base class holds a view of the caller's chunk")
+
 
 
 def _r6_all_turns_counted(ctx):
@@ -763,6 +811,19 @@ def _closing_if(tree, fname):
 
 def variants():
     out = []
+
+    def fabsf_guard(tree):
+        f = find_func(tree, "threepoint_loop")
+        n = 0
+        for c in ast.walk(f):
+            if isinstance(c, ast.Call) and isinstance(c.func, ast.Name) and c.func.id == "fabs":
+                par = c._parent
+                while par is not None and not isinstance(par, (ast.If, ast.stmt)):
+                    par = par._parent
+                c.func.id = "fabsf"
+                n += 1
+        return n > 0
+    out.append(witness("three-point guard compares single-precision ranges (fabsf)", PYX, fabsf_guard, "R-C02-7"))
 
     def drop_continue(tree):
         f = find_func(tree, "FKMDetector.process")
